@@ -63,7 +63,7 @@ type checkpointer interface {
 }
 
 // foldWal applies the entries [first..upTo] of a WAL to a fresh database and returns its canonical dump.
-func foldWal(w wal.Wal, upTo int64, scratch string) (map[string]string, int, error) {
+func foldWal(w wal.Wal, upTo int64, scratch string, notifications ...bool) (map[string]string, int, error) {
 	_ = os.RemoveAll(scratch)
 	f, err := shard.NewKVFactory(scratch)
 	if err != nil {
@@ -78,6 +78,10 @@ func foldWal(w wal.Wal, upTo int64, scratch string) (map[string]string, int, err
 		return nil, 0, err
 	}
 	defer db.Close()
+	if len(notifications) > 0 {
+		// the term options of the shard, as every replica was told them
+		db.EnableNotifications(notifications[0])
+	}
 	applied := 0
 	if w.LastOffset() >= 0 && upTo >= 0 {
 		rd, err := w.NewReader(w.FirstOffset() - 1)
@@ -170,7 +174,13 @@ func runC06Routes(tier string, seed uint64, idx int) core.Result {
 	oldChunk := kv.MaxSnapshotChunkSize
 	kv.MaxSnapshotChunkSize = []int64{64, 1024, 64 * 1024, 1024 * 1024}[rng.IntN(4)]
 	defer func() { kv.MaxSnapshotChunkSize = oldChunk }()
-	c, leaderName, cleanup, ok := newCluster(r, 3, 1<<20, true)
+	// every fourth case runs with notifications disabled in the term options: no replica may record any, whatever
+	// route it took
+	notif := idx%4 != 3
+	if !notif {
+		r.Count("cases_with_notifications_disabled", 1)
+	}
+	c, leaderName, cleanup, ok := newCluster(r, 3, 1<<20, notif)
 	if !ok {
 		return r.Done()
 	}
@@ -460,7 +470,7 @@ func runC06Routes(tier string, seed uint64, idx int) core.Result {
 			r.Count("folds_skipped_no_complete_log", 1)
 			continue
 		}
-		d, applied, err := foldWal(full, rp.commit, filepath.Join(c.Dir, "fold"))
+		d, applied, err := foldWal(full, rp.commit, filepath.Join(c.Dir, "fold"), notif)
 		if err != nil {
 			viol("fold-failed", fmt.Sprintf("folding the leader's log up to %d stopped after %d entries: %s", rp.commit, applied, scrubErr(err)), trace)
 			return r.Done()
